@@ -291,6 +291,7 @@ _warc_data(struct archive_write *a, const void *buf, size_t len)
 		if (rc != ARCHIVE_OK) {
 			return rc;
 		}
+		w->populz -= len;
 	}
 	return len;
 }
@@ -302,8 +303,17 @@ _warc_finish_entry(struct archive_write *a)
 	struct warc_s *w = a->format_data;
 
 	if (w->typ == AE_IFREG) {
-		int rc = __archive_write_output(a, _eor, sizeof(_eor) - 1U);
+		int rc;
 
+		/* a body shorter than announced is filled up */
+		if (w->populz > 0) {
+			rc = __archive_write_nulls(a, (size_t)w->populz);
+			if (rc != ARCHIVE_OK) {
+				return rc;
+			}
+			w->populz = 0U;
+		}
+		rc = __archive_write_output(a, _eor, sizeof(_eor) - 1U);
 		if (rc != ARCHIVE_OK) {
 			return rc;
 		}
